@@ -175,6 +175,17 @@ pub fn run_one(sc: &Scenario, prefix: &[usize], props: &[&str]) -> ExecResult {
     let mut pre_ids = vec![];
     let mut pre_frames: Vec<Frame> = vec![];
     for p in &sc.pre {
+        if p.act == "import-future" {
+            // a frame that arrived by import and carries an id an hour ahead of the local clock
+            // (exported on a machine whose clock runs ahead)
+            let id = Scru128Id::from_u128(scru128::new().to_u128() + (3_600_000u128 << 80));
+            let f = Frame::builder(p.topic.clone(), ctx_ids[p.ctx]).id(id).maybe_ttl(parse_ttl_opt(&p.ttl)).build();
+            store.insert_frame(&f).expect("harness: import");
+            pre_ids.push(f.id);
+            pre_frames.push(f.clone());
+            appended.lock().unwrap().push(Appended { frame: f, writer: None, began: 0, done: 0, stored: true });
+            continue;
+        }
         let f = store
             .append(
                 Frame::builder(p.topic.clone(), ctx_ids[p.ctx])
@@ -757,8 +768,17 @@ fn check_reader(
     let name = format!("reader{} {{follow:{}, tail:{}, last-id:{:?}, limit:{:?}, ctx:{:?}}}", ri, rs.follow, rs.tail, rs.last_id, rs.limit, rs.ctx);
 
     let real: Vec<&Frame> = log.delivered.iter().filter(|f| f.topic != "xs.threshold" && f.topic != "xs.pulse").collect();
-    // order / duplicates
-    for w in real.windows(2) {
+    // order / duplicates (ids ahead of the local clock that arrived by import cannot be ordered
+    // against ids assigned here: they are exempt from the order, not from exactly-once)
+    let future: BTreeSet<Scru128Id> = app.iter().filter(|a| a.writer.is_none() && a.frame.id.timestamp() > scru128::new().timestamp() + 60_000).map(|a| a.frame.id).collect();
+    let mut seen_once: BTreeSet<Scru128Id> = BTreeSet::new();
+    for f in &real {
+        if !seen_once.insert(f.id) && future.contains(&f.id) && (c03 || c02) {
+            findings.push(Finding { kind: "follow.dup".into(), msg: format!("{}: delivered {} twice", name, f.id) });
+        }
+    }
+    let ordered: Vec<&Frame> = real.iter().filter(|f| !future.contains(&f.id)).cloned().collect();
+    for w in ordered.windows(2) {
         if w[1].id <= w[0].id {
             let k = if w[1].id == w[0].id { "dup" } else { "order" };
             if c03 || c02 {
@@ -1025,6 +1045,25 @@ pub fn scenarios(prop: &str, tier: &str) -> Vec<Scenario> {
                     }
                 }
             }
+            // the history holds a frame whose id lies in the future (imported from a machine whose
+            // clock runs ahead): it existed when the read began
+            for (start, tail) in [("begin", false), ("tail", true)] {
+                let mut s = base(&format!("future-import-{}", start));
+                let mut fut = fs("f", 0, "");
+                fut.act = "import-future".into();
+                s.pre = vec![fs("h", 0, ""), fut];
+                s.writers = vec![vec![fs("a", 0, ""), fs("a", 0, "ephemeral")]];
+                s.readers = vec![rd("on", tail, None, None, None)];
+                s.bound = Some(1);
+                v.push(s);
+            }
+            // scoped reader resuming from a last-id inside its context
+            let mut s = base("h2-ctx-lastid-1w2");
+            s.contexts = 1;
+            s.pre = vec![fs("h", 1, ""), fs("h", 0, ""), fs("h", 1, "")];
+            s.writers = vec![vec![fs("a", 1, ""), fs("a", 0, "")]];
+            s.readers = vec![rd("on", false, Some(0), None, Some(1))];
+            v.push(s);
             // scoped reader, writers in both contexts
             let mut s = base("h1-ctx-2w1");
             s.contexts = 2;
@@ -1430,6 +1469,16 @@ pub fn run(prop: &str, tier: &str, report: &mut Report) {
                 });
             }
         }
+        let (fs3, n3) = script_appenders();
+        for f in fs3 {
+            report.add_violation(Violation {
+                property: prop.to_string(),
+                signature: format!("E5:scripts:{}", f.kind),
+                message: f.msg,
+                replay: json!({"engine": "e2-scripts"}),
+            });
+        }
+        report.cov("supplementary_script_appenders", json!({"frames_delivered": n3, "note": "handler (buffered .append + return value), command (unbuffered .append + results) and generator output appended from their own threads while a client appends; follower order and last-id poller; OS schedule with a 60 ms window forced by the scripts"}));
         report.cov("supplementary_free_running_stress", json!({"runs": 3, "writers": 4, "frames_delivered": frames, "note": "hook-free sample of schedules, not the deciding step; sees reorderings inside one scheduling step"}));
     }
     report.cov("scenarios", json!(per_scenario));
@@ -1472,6 +1521,74 @@ pub fn replay(v: &Value) -> i32 {
     } else {
         1
     }
+}
+
+/// The script-level appenders of C02's quantifier: a handler (buffered `.append`, emitted when the
+/// closure returns), a command (unbuffered `.append`) and a generator emit frames from their own
+/// threads while a client appends; a follower and a last-id poller watch. The closure keeps
+/// running for 60 ms after its `.append`, so the window between "the script emitted" and "the
+/// frame is appended" is wide open on every run. Supplementary like the stress run: the
+/// schedule is the OS's.
+pub fn script_appenders() -> (Vec<Finding>, u64) {
+    use crate::e5::{meta_str, Serve, World};
+    use std::sync::atomic::{AtomicBool, Ordering};
+    let mut findings = vec![];
+    let w = World::start(Serve { handlers: true, generators: true, commands: true });
+    let ctx = ZERO_CONTEXT;
+    let reg = w.append_c("slow.register", ctx, Some("{run: {|frame| if $frame.topic != \"go\" { return }; \"n\" | .append slow.note; sleep 60ms; \"ret\"}}"), None);
+    w.wait(|f| f.topic == "slow.registered" && meta_str(f, "handler_id") == Some(reg.id.to_string()), 20.0).expect("harness: handler");
+    w.append_c("cmd.define", ctx, Some("{run: {|frame| \"c\" | .append cmd.note | ignore; sleep 60ms; \"r\"}}"), None);
+    let stop = Arc::new(AtomicBool::new(false));
+    let poller = {
+        let store = w.store.clone();
+        let stop = stop.clone();
+        std::thread::spawn(move || {
+            let mut last: Option<Scru128Id> = None;
+            let mut got: Vec<Scru128Id> = vec![];
+            loop {
+                let done = stop.load(Ordering::SeqCst);
+                let new: Vec<Scru128Id> = store.read_sync(last.as_ref(), None, None).map(|f| f.id).collect();
+                if let Some(l) = new.last() {
+                    last = Some(*l);
+                }
+                got.extend(new);
+                if done {
+                    break;
+                }
+                std::thread::sleep(Duration::from_millis(1));
+            }
+            got
+        })
+    };
+    let mark = w.append_c("mark", ctx, None, None);
+    let go = w.append_c("go", ctx, None, None);
+    let call = w.append_c("cmd.call", ctx, None, None);
+    let sp = w.append_c("gen.spawn", ctx, Some("[\"a\" \"b\" \"c\"] | each {|x| sleep 10ms; $x}"), None);
+    for k in 0..30 {
+        let _ = w.store.append(Frame::builder(format!("tick{}", k), ctx).build());
+        std::thread::sleep(Duration::from_millis(4));
+    }
+    w.wait(|f| f.topic == "slow.out" && meta_str(f, "frame_id") == Some(go.id.to_string()), 20.0);
+    w.wait(|f| f.topic == "cmd.complete" && meta_str(f, "frame_id") == Some(call.id.to_string()), 20.0);
+    w.wait(|f| f.topic == "gen.stop" && meta_str(f, "source_id") == Some(sp.id.to_string()), 20.0);
+    let fin = w.append_c("fin", ctx, None, None);
+    w.sync_to(fin.id);
+    stop.store(true, Ordering::SeqCst);
+    let polled = poller.join().unwrap();
+    let log: Vec<Frame> = w.snapshot();
+    let seen: Vec<&Frame> = w.snapshot_ref_after(&log, mark.id);
+    if let Some(p) = seen.windows(2).find(|p| p[1].id <= p[0].id) {
+        findings.push(Finding { kind: "scripts.follow.order".into(), msg: format!("script appenders: a follower was sent {} ({}) after {} ({})", p[1].id, p[1].topic, p[0].id, p[0].topic) });
+    }
+    let want: Vec<Scru128Id> = w.store.read_sync(None, None, None).map(|f| f.id).collect();
+    let polled_stored: Vec<Scru128Id> = polled.into_iter().collect();
+    if polled_stored != want {
+        let missing: Vec<String> = want.iter().filter(|x| !polled_stored.contains(x)).map(|x| x.to_string()).collect();
+        findings.push(Finding { kind: "scripts.poller".into(), msg: format!("script appenders: a client polling with last-id collected {} frames, the stream holds {}; missed {:?}", polled_stored.len(), want.len(), missing) });
+    }
+    let n = seen.len() as u64;
+    w.stop();
+    (findings, n)
 }
 
 /// Supplementary, hook-free detector for C02 (NOT the deciding step: a free-running stress run is
